@@ -475,7 +475,7 @@ impl Part for Located {
 pub struct Planted;
 
 /// every construct with a hole for the failing expression `{{ (7777 // 0) }}`
-fn planted_sources() -> Vec<(String, String, &'static str)> {
+fn planted_sources() -> Vec<(String, String, &'static str, u8)> {
     let plant = "(7777 // 0)";
     let holes = [
         "{{ @ }}",
@@ -486,6 +486,8 @@ fn planted_sources() -> Vec<(String, String, &'static str)> {
         "{% for q in l if @ %}{% endfor %}",
         "{% for q in [] %}{% else %}\n{{ @ }}{% endfor %}",
         "{% set w = @ %}",
+        "{% set w = @, %}",
+        "{% set w = 1,\n @ %}",
         "{% set w %}\n{{ @ }}{% endset %}",
         "{% with w = @ %}{% endwith %}",
         "{% with w = 1 %}\n\n{{ @ }}{% endwith %}",
@@ -542,7 +544,7 @@ fn planted_sources() -> Vec<(String, String, &'static str)> {
     ];
     for (stmt, marker, name) in mode_stmts {
         for (pre, post) in [("", "\nnext"), ("line1\n\n", "\n\n{{ 1 }}"), ("{% if true %}\n", "\n{{ 2 }}\n{% endif %}\n")] {
-            out.push((format!("{pre}{stmt}{post}"), marker.to_string(), name));
+            out.push((format!("{pre}{stmt}{post}"), marker.to_string(), name, 0));
         }
     }
     for (stmt, marker) in stmts {
@@ -553,13 +555,47 @@ fn planted_sources() -> Vec<(String, String, &'static str)> {
             ("{% for q in l %}\n", "\n\n{{ q }}{% endfor %}"),
             ("\u{e9}\u{1f600}\r\n", "\r\n{{ i }}\r\n"),
         ] {
-            out.push((format!("{pre}{stmt}{post}"), marker.to_string(), "main.txt"));
+            out.push((format!("{pre}{stmt}{post}"), marker.to_string(), "main.txt", 0));
+        }
+    }
+    // operations that fail on an undefined operand under strict undefined behaviour (`not`, the
+    // condition of an inline if, a bare print): instructions without a span of their own, inside
+    // every way of writing a literal around them - a bare tuple with a trailing comma included
+    let strict_stmts = [
+        "{{ not nosuch7777 }}",
+        "{{ 1 if nosuch7777 }}",
+        "{% set w = not nosuch7777 %}",
+        "{% set w = not nosuch7777, %}",
+        "{% set w = 1 if nosuch7777, %}",
+        "{% set w = 1 if nosuch7777 else 2,\n %}",
+        "{% set w = (not nosuch7777,) %}",
+        "{% set w = 1, not nosuch7777 %}",
+        "{% set w = not nosuch7777, 2 %}",
+        "{% set w = [not nosuch7777] %}",
+        "{% set w = [1,\n not nosuch7777,\n] %}",
+        "{% set w = {'k': not nosuch7777} %}",
+        "{% set w = {'k': 1 if nosuch7777} %}",
+        "{% set w, u = 1, not nosuch7777 %}",
+        "{% for q in not nosuch7777, %}{% endfor %}",
+        "{% if not nosuch7777 %}{% endif %}",
+        "{% for q in l if not nosuch7777 %}{% endfor %}",
+        "{% with w = not nosuch7777 %}{% endwith %}",
+        "{{ mac(not nosuch7777) }}",
+        "{{ dict(k=not nosuch7777) }}",
+        "{{ l[not nosuch7777] }}",
+        "{{ (1, not nosuch7777)[1] }}",
+        "{% do [1 if nosuch7777] %}",
+    ];
+    for stmt in strict_stmts {
+        for (pre, post) in [("", "\nnext {{ i }}"), ("line1\n\n", "\n\n{{ i }}"), ("\u{e9}\u{1f600}\r\n{% if true %}", "{% endif %}\r\n{{ i }}\r\n")] {
+            let head = "{% macro mac(a) %}[{{ a }}]{% endmacro %}";
+            out.push((format!("{head}{pre}{stmt}{post}"), "nosuch7777".to_string(), "main.txt", 1));
         }
     }
     for h in holes {
         for (pre, post) in [("", ""), ("line1\nline2 ", " tail\nend"), ("\u{e9}\u{1f600}\n\n\n", "\n"), ("{# c\nc #}\r\n", "")] {
             let head = "{% macro mac(a) %}[{{ a }}]{% endmacro %}{% macro wrap(n) %}{% for z in range(n) %}{{ caller(z) }}{% endfor %}{% endmacro %}";
-            out.push((format!("{head}{pre}{}{post}", h.replace('@', plant)), plant.to_string(), "main.txt"));
+            out.push((format!("{head}{pre}{}{post}", h.replace('@', plant)), plant.to_string(), "main.txt", 0));
         }
     }
     out
@@ -579,7 +615,7 @@ impl Part for Planted {
                 pad_lines,
                 pad_cols,
                 debug,
-                undefined: 0,
+                undefined: all[i].3,
                 plant: Some(all[i].1.clone()),
             })
             .boxed()
@@ -587,7 +623,7 @@ impl Part for Planted {
 
     fn enumeration(_tier: Tier) -> Vec<LocCase> {
         let mut out = vec![];
-        for (src, plant, name) in planted_sources() {
+        for (src, plant, name, undefined) in planted_sources() {
             for pad_lines in [0u32, 1, 7, 255, 60_000] {
                 for pad_cols in [0u32, 3, 70_000] {
                     out.push(LocCase {
@@ -597,7 +633,7 @@ impl Part for Planted {
                         pad_lines,
                         pad_cols,
                         debug: (pad_lines + pad_cols) % 2 == 0,
-                        undefined: 0,
+                        undefined,
                         plant: Some(plant.clone()),
                     });
                 }
